@@ -133,6 +133,11 @@ impl Source for FileSource {
                 .offset(region.begin().into_u64())
                 .len(full_size.into_usize())
                 .populate();
+            #[cfg(jubako_verif)]
+            if crate::verif::fault("mmap") {
+                // simulated environment fault: ask for a mapping the kernel cannot grant
+                mmap_options.len(usize::MAX >> 1);
+            }
             let mmap = unsafe { mmap_options.map(self.source.lock().unwrap().get_ref())? };
             #[cfg(unix)]
             mmap.advise(Advice::WillNeed)?;
